@@ -49,7 +49,8 @@ def parseKind (s : String) : Option Kind :=
   match s with
   | "special" => some .special | "colon" => some .colon | "regular" => some .regular
   | "func" => some .func | "brace" => some .brace | "notfound" => some .notFound
-  | "empty" => some .empty | "exec" => some .exec | _ => none
+  | "empty" => some .empty | "exec" => some .exec | "paren" => some .paren
+  | "cmdexec" => some .commandExec | _ => none
 
 /-- initial world and table: standard descriptors (read-write, appending), then the pre-opened ones -/
 def initial (nc : Bool) (lim : Option Nat) (pre : List String) : Option (World × FdTable) := do
@@ -96,8 +97,7 @@ def showFile (w : World) (i : Nat) : String :=
 def showFiles (w : World) : String :=
   ",".intercalate ([0, 1, 3, 4, 5, 6, 9].map fun i => s!"{fileName i}:{showFile w i}")
 
-def observe (w0 : World) (t0 : FdTable) (tr : Trace) : String :=
-  let b := showSnap w0 t0
+def observeCmd (tr : Trace) : String :=
   let d := match tr.during, tr.wrote, tr.readRes with
     | some (wd, td), some wrote, some (rd, tainted) =>
       let r := match rd with
@@ -108,32 +108,45 @@ def observe (w0 : World) (t0 : FdTable) (tr : Trace) : String :=
   let a := match tr.status with
     | some st => if tr.exited.isSome then "-" else s!"{st}:{showSnap tr.w tr.t}"
     | none => "-"
-  let ex := match tr.exited with
-    | some n => n
-    | none => tr.status.getD 0
-  s!"B={b} D={d} A={a} F={showSnap tr.w tr.t} files={showFiles tr.w} exit={ex}"
+  s!"D={d} A={a}"
+
+def parseCmds : List String → Option (List (Kind × List Redir))
+  | kind :: redirs :: rest => do
+    let k ← parseKind kind
+    let rs ← ((splitTrim redirs ";").filter (· ≠ "")).mapM parseRedir
+    let more ← parseCmds rest
+    pure ((k, rs) :: more)
+  | [] => some []
+  | [_] => none
 
 def runLine (line : String) : String :=
   match splitTrim line "|" with
-  | [hdr, kind, redirs] =>
-    let parsed : Option (Bool × Option Nat × List String × Kind × List Redir) := do
+  | hdr :: cmdFields =>
+    let parsed : Option (Bool × Option Nat × List String × List (Kind × List Redir)) := do
       match words hdr with
       | [nc, lim, pre] =>
         let nc ← nc.toNat?
         let lim ← (if lim = "-" then some none else lim.toNat?.map some)
         let pre := if pre = "-" then [] else pre.splitOn ","
-        let k ← parseKind kind
-        let rs ← ((splitTrim redirs ";").filter (· ≠ "")).mapM parseRedir
-        pure (nc != 0, lim, pre, k, rs)
+        let cmds ← parseCmds cmdFields
+        if cmds.isEmpty then none else pure (nc != 0, lim, pre, cmds)
       | _ => none
     match parsed with
     | none => "bad-case\t-"
-    | some (nc, lim, pre, k, rs) =>
+    | some (nc, lim, pre, cmds) =>
       match initial nc lim pre with
       | none => "bad-case\t-"
       | some (w0, t0) =>
-        let tr := runCommand w0 t0 k rs
-        observe w0 t0 tr ++ "\t" ++ specVerdict t0 k rs tr
+        let trs := runScript w0 t0 0 cmds
+        let ran := trs.map fun (_, tr) => observeCmd tr
+        let skipped := List.replicate (cmds.length - trs.length) "D=- A=-"
+        let (wf, tf, ex) := match trs.getLast? with
+          | some (_, tr) => (tr.w, tr.t, match tr.exited with | some n => n | none => tr.status.getD 0)
+          | none => (w0, t0, 0)
+        let verdicts := (trs.zip cmds).map fun ((tb, tr), (k, rs)) => specVerdict tb k rs tr
+        let verdict := (verdicts.find? (· ≠ "ok")).getD "ok"
+        s!"B={showSnap w0 t0} {" ".intercalate (ran ++ skipped)} F={showSnap wf tf} files={showFiles wf} exit={ex}"
+          ++ "\t" ++ verdict
   | _ => "bad-case\t-"
 
 def main : IO Unit := mainLoop runLine
